@@ -34,7 +34,7 @@ func ParseWireRows(c *core.Ctx, raws []json.RawMessage) []WireRow {
 var canonName = map[string]string{
 	"capability": "Capability", "childclaimids": "ChildClaimIds", "claimid": "ClaimId",
 	"claimidlist": "ClaimIdList", "claimids": "ClaimIds", "transferkey": "TransferKey",
-	"prefix": "_Condor_Priv_Thing", "pubA": "PubAlpha", "pubB": "PubBeta",
+	"prefix": "_Condor_Priv_Thing", "pubA": "PubAlpha", "pubB": "PubBeta", "stime": "ServerTime",
 }
 
 func spell(name, sp string) string {
@@ -47,7 +47,7 @@ func spell(name, sp string) string {
 	return name
 }
 
-func isPrivateCls(cls string) bool { return cls != "pubA" && cls != "pubB" }
+func isPrivateCls(cls string) bool { return cls != "pubA" && cls != "pubB" && cls != "stime" }
 
 // privateValue builds the value of a private attribute with unique canaries.
 func privateValue(cls, salt string, idx int) (value string, canary []string) {
@@ -251,6 +251,51 @@ func C08Scenarios(c *core.Ctx, rows []WireRow, pool []string) []*AdScenario {
 		}
 		if p >= len(pool) {
 			break
+		}
+	}
+	return out
+}
+
+// C08StimeScenarios concretises the ServerTime dimension (Gen_C08_stime.cfg): the
+// ServerTime option on / off x an ad that carries its own ServerTime attribute in
+// some spelling (a forwarded ad) or not.
+func C08StimeScenarios(c *core.Ctx, rows []WireRow) []*AdScenario {
+	salt := fmt.Sprint(c.Seed)
+	var out []*AdScenario
+	for ri, row := range rows {
+		n := 0
+		for _, a := range row.Ad {
+			if a.Cls == "stime" {
+				n++
+			}
+		}
+		if n > 1 {
+			continue // one name cannot occur twice in an ad
+		}
+		senders := []string{"PutClassAdWithOptions"}
+		if row.Cfg.Opts == 0 {
+			senders = append(senders, "PutClassAd", "PutClassAdRaw", "PutClassAdRawBytes")
+		}
+		for _, s := range senders {
+			if strings.HasPrefix(s, "PutClassAdRaw") && row.Cfg.St == KeyedClear {
+				continue
+			}
+			var attrs []ConcAttr
+			for i, a := range row.Ad {
+				ca := ConcAttr{Cls: a.Cls, Sp: a.Sp, Allowed: row.Allowed[i]}
+				if a.Cls == "stime" {
+					ca.Name = spell("ServerTime", a.Sp)
+					ca.Value = fmt.Sprintf("%d", 1500000000+ri)
+				} else {
+					ca.Name = fmt.Sprintf("Attr%d_%c", i, 'a'+rune((ri+i)%26))
+					ca.Value = []string{"1", `"text"`, "X + 1", "2.5"}[(ri+i)%4]
+				}
+				attrs = append(attrs, ca)
+			}
+			out = append(out, &AdScenario{Kind: "ClassAdWire", Prop: "C08", Cfg: row.Cfg, Attrs: attrs, Types: row.Types,
+				MyType: "Machine", TargetType: "Job", Cut: row.Cut, RecvOK: row.RecvOK, Sender: s,
+				Trailer: row.Cfg.Opts&BitNoTypes == 0 || strings.HasPrefix(s, "PutClassAdRaw"), Salt: salt,
+				AllCuts: c.Thorough()})
 		}
 	}
 	return out
